@@ -374,6 +374,13 @@ def scenario(c, inst, props):
                     ok_state.append(False)
             c.check(P7 + ".event_time_inside_its_step", c.all(ok_inside))
             c.check(P7 + ".event_state_is_step_interpolant_at_event_time", c.all(ok_state))
+            # the same with a margin (|difference| <= 2^-20): a counterexample of this form survives the rounding of the float replay even when
+            # the two times involved are very close to each other
+            gap = []
+            for e, s_ in zip(rec, spec):
+                if s_["piece"] is not None:
+                    gap += [c.le(absval(c, u - v), 2.0 ** -20, 64) for u, v in zip(flat(c, e.y), flat(c, s_["piece"](e.t)))]
+            c.check(P7 + ".event_state_is_step_interpolant_at_event_time_within_2^-20", c.all(gap))
         order = [c.le(0, sgn * (rec[j + 1].t - rec[j].t), 64) for j in range(len(rec) - 1)]
         c.check(P7 + ".events_in_integration_order", c.all(order))
         uniq = []
